@@ -24,7 +24,7 @@ func init() { core.Register(check{}) }
 func (check) ID() string    { return "C19" }
 func (check) Level() string { return "exploration" }
 func (check) Rule() string {
-	return "bounded-exhaustive enumeration, simplest first: all bool/byte/i16 values; i32/i64/double boundary families (every +-2^k+d |d|<=2, digit boundaries; every (sign,exponent) x 5 mantissa patterns); strings of every length 0..40 and 4095..4097 x 3 contents; every container/field header over all type codes x size alphabet; Go values <-> model for every shape of T(1) u T(2) x container size 0..3 x flag sets (WriteAny/ReadAny/WriteAnyWithDesc/ReadAnyWithDesc); Skip (Go and native) over T(1) u T(2) u T(3-subset) values; envelopes names x types x seq x ids x bodies. A case is non-trivial if it is distinct by (operation, input) and exercised a write+read or skip of at least one byte. Later additions: pooled readers / writers recycled after objects of 0..1 MiB, the BinaryEncoding twins (Encode*/Decode*, EncodeEmpty of every type into fresh, prefixed and dirty buffers). Round 8: sized Go key maps through WriteAnyWithDesc; fixed-offset decoders over slices with following bytes. Thorough tier: all 2^32 i32 values in blocks, +-2^k+d for |d|<=16 and two-byte patterns for i64, 70 mantissa patterns per (sign, exponent), every string length 0..300 and around 8 KiB / 64 KiB / 1 MiB, T(3) shapes for the generic readers / writers, container sizes up to 5."
+	return "bounded-exhaustive enumeration, simplest first: all bool/byte/i16 values; i32/i64/double boundary families (every +-2^k+d |d|<=2, digit boundaries; every (sign,exponent) x 5 mantissa patterns); strings of every length 0..40 and 4095..4097 x 3 contents; every container/field header over all type codes x size alphabet; Go values <-> model for every shape of T(1) u T(2) x container size 0..3 x flag sets (WriteAny/ReadAny/WriteAnyWithDesc/ReadAnyWithDesc); Skip (Go and native) over T(1) u T(2) u T(3-subset) values; envelopes names x types x seq x ids x bodies. A case is non-trivial if it is distinct by (operation, input) and exercised a write+read or skip of at least one byte. Later additions: pooled readers / writers recycled after objects of 0..1 MiB, the BinaryEncoding twins (Encode*/Decode*, EncodeEmpty of every type into fresh, prefixed and dirty buffers). Round 8: sized Go key maps through WriteAnyWithDesc; fixed-offset decoders over slices with following bytes. Thorough tier: all 2^32 i32 values in blocks, +-2^k+d for |d|<=16 and two-byte patterns for i64, 70 mantissa patterns per (sign, exponent), every string length 0..300 and around 8 KiB / 64 KiB / 1 MiB, T(3) shapes for the generic readers / writers, container sizes up to 5. Round 11: maps keyed by lists, sets, maps, structs and doubles."
 }
 
 func (check) Assumptions() []string {
